@@ -4,6 +4,8 @@ CONSTANTS
   MaxSize = 200
   OpsUniverse <- U_ops
   Mirror = FALSE
+  ShareMemo = FALSE
   MaxOps = 3
 INVARIANT OpsAligned
 INVARIANT OpsLookup
+INVARIANT MemoFresh
